@@ -347,7 +347,17 @@ for _sfx in ('A1', 'T1'):
 
 # ------------------------------------------------------------------------------------------------ PLD
 def x_pld(M, o):
+    """A8.8.126-128: the address handed to Hint_PreloadData() - base register (or Align(PC,4) for the literal form) plus / minus the immediate or the shifted
+    index register (RRX takes APSR.C). The hooked target records it."""
     hook(M, 'Hint_PreloadData')
+    if 'm' in o:
+        offset = shift(M.R(o['m']), o['shift_t'], o['shift_n'], M.C())
+    else:
+        offset = o['imm32']
+    base = M.pc_align4() if o.get('n') is None else M.R(o['n'])
+    address = (base + offset) & M32 if o['add'] else (base - offset) & M32
+    if 'preloads' in M.s:
+        M.s['preloads'] = tuple(M.s['preloads']) + (('pld', address),)
 
 
 def _pld_reg_a1(M, f):
